@@ -425,6 +425,14 @@ contains
 #ifndef SIMC
     case ("item_combine")
        call sim_phase(1); r = h(a)%combine(h(b)); call sim_phase(0); call res_int(int(r))
+    case ("item_add_all")
+       allocate(iv(b)); do i = 1, b; iv(i) = i; end do
+       call sim_phase(1); r = h(a)%add_all(iv); call sim_phase(0); call res_int(int(r)); deallocate(iv)
+    case ("item_assoc")
+       call sim_phase(1); sm = merge(1, 0, h(a)%associated()); call sim_phase(0); call res_int(sm)
+    case ("arr_sum_d")
+       allocate(dv(a)); do i = 1, a; dv(i) = 0.5d0 * i; end do
+       call sim_phase(1); r = arr_sum_d(dv); call sim_phase(0); call res_int(int(r)); deallocate(dv)
 #endif
 #ifndef SIMC
     case ("pass_item")
